@@ -4,6 +4,18 @@ import re
 def oracle_listen(case, impl):
     """C16 direct check on the real ListenAndServe."""
     f = case.split(" ")
+    if f[0] == "listenburst":
+        m = re.match(r"returned=(\d+)/(\d+) err=(\S+) rebind=(\w+)", impl)
+        if not m:
+            return "unexpected harness output " + impl[:80]
+        if m.group(1) != m.group(2):
+            if m.group(3) == "-":
+                return ("start %d of %s with every listener failing to bind: ListenAndServe did not return within 3 s "
+                        "(the bind failure is never reported)" % (int(m.group(1)) + 1, m.group(2)))
+            return "every listener failed to bind but the returned error is of class '%s'" % m.group(3)
+        if m.group(4) != "ok":
+            return "a listen address could not be bound again after ListenAndServe returned"
+        return None
     stop = int(f[4])
     m = re.match(r"returned=(\d) err=(\S+) rebind=(\w+)", impl)
     if not m:
